@@ -88,6 +88,11 @@ struct RipsInfo {
 };
 
 static int g_prime = 2;
+// every distance (and finite mini / maxi) is handed to the library multiplied by 2^g_scale2, and radii / filtration values
+// are divided by it when read back: an exact operation in binary floating point, so the construction must come out
+// identical at every scale (the property does not fix a unit of length)
+static int g_scale2 = 0;
+static double scale() { return std::ldexp(1.0, g_scale2); }
 
 static RipsInfo rips_info(const Metric& M) {
   RipsInfo R;
@@ -114,6 +119,7 @@ struct Group {
     std::ostringstream o;
     o << "fv=" << fv_name << ";n=" << M->n << ";" << M->enc() << ";start=" << start << ";eps=" << eps_s << ";mini=" << mini_s
       << ";maxi=" << maxi_s << ";dim=" << dim;
+    if (g_scale2) o << ";scale2=" << g_scale2;
     return o.str();
   }
 };
@@ -121,15 +127,16 @@ struct Group {
 static void construct(const Group& g, Build& b) {
   const Metric& M = *g.M;
   vfrd::g_seed = seed_for(M.n, g.start);
-  FV mini = (FV)g.mini, maxi = (FV)g.maxi;
+  const double sc = scale();
+  FV mini = (FV)(g.mini * sc), maxi = (FV)(g.maxi * sc);
   if (M.from_points) {
     b.pts = M.pts;
-    auto dist = [](const std::vector<int>& p, const std::vector<int>& q) { return (FV)c19::euclid(p, q); };
+    auto dist = [sc](const std::vector<int>& p, const std::vector<int>& q) { return (FV)((FV)c19::euclid(p, q) * (FV)sc); };
     if (g.bounded()) b.sr.reset(new SR(b.pts, dist, g.eps, mini, maxi));
     else b.sr.reset(new SR(b.pts, dist, g.eps));
   } else {
     b.dm.assign(M.n, {});
-    for (int i = 0; i < M.n; ++i) for (int j = 0; j < i; ++j) b.dm[i].push_back((FV)M.d(i, j));
+    for (int i = 0; i < M.n; ++i) for (int j = 0; j < i; ++j) b.dm[i].push_back((FV)((FV)M.d(i, j) * (FV)sc));
     if (g.bounded()) b.sr.reset(new SR(b.dm, g.eps, mini, maxi));
     else b.sr.reset(new SR(b.dm, g.eps));
   }
@@ -143,7 +150,8 @@ static void check_greedy(const Group& g, const SR& sr) {
   S.add("ev.transitions");
   int n = M.n;
   const auto& sp = sr.sorted_points;
-  const auto& pr = sr.params;
+  std::vector<FV> pr(sr.params.begin(), sr.params.end());
+  for (auto& x : pr) x = (FV)(x / (FV)scale());
   std::ostringstream got;
   got << "order=" << vf::join(sp) << " radii=" << vf::join(pr);
   if ((int)sp.size() != n || (int)pr.size() != n) { vf::mismatch("C19:farthest_points:size", got.str()); return; }
@@ -183,7 +191,7 @@ static void count_branches(const Group& g, const SR& sr) {
   double cst = g.eps * (1 - g.eps) / 2;
   for (size_t i = 0; i < nv; ++i)
     for (size_t j = i + 1; j < nv; ++j) {
-      double d = M.d(sr.sorted_points[i], sr.sorted_points[j]), li = sr.params[i], lj = sr.params[j], alpha = d;
+      double d = M.d(sr.sorted_points[i], sr.sorted_points[j]), li = sr.params[i] / scale(), lj = sr.params[j] / scale(), alpha = d;
       if (d * g.eps <= 2 * lj) S.add("branch.alpha_eq_d");
       else if (d * g.eps > li + lj) { S.add("branch.cut_both_frozen"); continue; }
       else {
@@ -215,7 +223,7 @@ static ReadBack read_complex(ST& st, int n) {
     }
     if (rep || m == 0 || r.G.has(m)) { r.dup = true; r.bad = txt; }
     if (r.unknown_vertex) { r.bad = txt; break; }
-    r.G.set(m, (double)st.filtration(sh));
+    r.G.set(m, (double)st.filtration(sh) / scale());
   }
   return r;
 }
@@ -374,9 +382,11 @@ int main(int argc, char** argv) {
   vf::install_handlers();
   vf::Stats& S = vf::stats();
   g_prime = (int)a.geti("prime", 2);
+  g_scale2 = (int)a.geti("scale2", 0);
 
   if (!a.replay.empty()) {
     auto kv = vf::parse_kv(a.replay);
+    if (kv.count("scale2")) g_scale2 = atoi(kv["scale2"].c_str());
     Metric M;
     int n = atoi(kv["n"].c_str());
     if (kv.count("P")) {
